@@ -13,6 +13,7 @@ type PPAIs struct {
 	N        int          // no of PAI _values_ found, cab be > len(Vals)
 	HNo      int          // no of different PAI _headers_ found
 	LastHVal PField       // values part of the last PAI _header_ parsed
+	lastHNo  int          // header number (HNo) for which LastHVal was started
 	last     PFromBody    // used if no space in Vals, as tmp state keeping
 }
 
@@ -92,8 +93,10 @@ func ParseAllPAIValues(buf []byte, offs int, c *PPAIs) (int, ErrorHdr) {
 		next, err = ParseOnePAI(buf, offs, pf)
 		switch err {
 		case 0, ErrHdrMoreValues:
-			if c.N == 0 {
+			if c.N == 0 || c.lastHNo != c.HNo {
+				// first value of a new header
 				c.LastHVal = pf.V
+				c.lastHNo = c.HNo
 			} else {
 				c.LastHVal.Extend(int(pf.V.Offs + pf.V.Len))
 			}
